@@ -3,6 +3,7 @@ import EgVerif.Proofs.ValidatorIR
 import EgVerif.Proofs.SignerIR
 import EgVerif.Proofs.SignerCanonIR
 import EgVerif.Proofs.SignerSignIR
+import EgVerif.Proofs.SignerValueIR
 import EgVerif.Gen.FactsC06
 /-!
 # C06 — the Validator admits exactly the requests with valid JWT, signature or Basic credentials
@@ -86,6 +87,18 @@ structure Accepts (cfg : Validator.Cfg) (env : Env) (r : Request) : Prop where
   /-- Basic: `Authorization: Basic base64(user ":" password)`, user id up to the first colon, pair configured -/
   basic : cfg.basic = true → ∃ tok u p, hget r.std.headers authHeader = b "Basic " ++ tok ∧
     Sha256.b64Decode tok = some (u ++ 58 :: p) ∧ 58 ∉ u ∧ env.users u p = true
+
+/-- what `Accepts.rules` means without the model function (audit: "restates"): the header is present and its **first** value
+is one of the listed values or matches the compiled regular expression -/
+theorem header_rule_iff (re : Bytes → Bytes → Bool) (h : Header) (r : HeaderRule) :
+    ruleOK re h r = true ↔ ∃ v vs, hvals h (canonKey r.key) = v :: vs ∧ (v ∈ r.values ∨ ∃ p, r.regexp = some p ∧ re p v = true) := by
+  unfold ruleOK
+  cases hv : hvals h (canonKey r.key) with
+  | nil => simp
+  | cons v vs =>
+    cases hr : r.regexp with
+    | none => simp
+    | some p => simp
 
 theorem jwtOK_iff (j : JwtCfg) (env : Env) (h : Header) :
     Spec.jwtOK j env h = true ↔ ∃ t, jwtToken j env.cookie h = some t ∧
@@ -998,6 +1011,14 @@ theorem getHost_regenerated_from_source (req : Req) :
     FactsC06CanonIR.extractionFailed = false ∧ FactsC06CanonIR.getHostIR req = getHost req :=
   ⟨by decide, Signer.getHost_regenerated_from_source req⟩
 
+/-- `buildCanonicalHeaderValue` = `canonValue`: per value leading / trailing spaces trimmed and every run of spaces collapsed to
+one, values joined by `,`. Its three inner loops are general `for` loops, translated as recursion on the fuel `len(str) + 1`;
+`some` = the fuel always suffices. -/
+theorem buildCanonicalHeaderValue_regenerated_from_source (strs : List Bytes) :
+    FactsC06CanonIR.extractionFailed = false ∧ FactsC06CanonIR.buildCanonicalHeaderValueIR strs = some (canonValue strs) :=
+  ⟨by decide, Signer.buildCanonicalHeaderValue_regenerated_from_source strs⟩
+
+example : FactsC06CanonIR.buildCanonicalHeaderValueIR [b "  a   b  c ", b "x", b "   "] = some (b "a b c,x,") := by decide
 example : FactsC06CanonIR.getHostIR ⟨b "GET", b "/", [], [], b "a.com:80", [], b "HTTP", false⟩ = b "a.com" := by decide
 example : FactsC06CanonIR.getHostIR ⟨b "GET", b "/", [], [], [], b "[::1]:8080", b "http", false⟩ = b "[::1]:8080" := by decide
 example : FactsC06CanonIR.buildCanonicalURIIR [] (b "/a b/~u") = b "/a%20b/~u" := by decide
